@@ -723,6 +723,10 @@ Proof.
   exists l', a. exact E.
 Qed.
 
+Lemma some_pair_inj : forall (A B : Type) (a a' : A) (b b' : B),
+  Some (a, b) = Some (a', b') -> a = a' /\ b = b'.
+Proof. intros A B a a' b b' H. inversion H. split; reflexivity. Qed.
+
 Lemma pair_eta : forall (e : entry), (fst e, snd e) = e.
 Proof. intros [a b]. reflexivity. Qed.
 
@@ -743,7 +747,7 @@ Proof.
   { intros k s Hks. apply HRel in Hks. exact (Hmax _ Hks). }
   destruct (list_last_cases _ t) as [->|(t' & lst & ->)].
   - (* a single element *)
-    cbn [length Nat.eqb] in Hp. injection Hp as <- <-.
+    cbn [length Nat.eqb] in Hp. apply some_pair_inj in Hp as [<- <-].
     split; [|split; assumption].
     split; [|split].
     + destruct HWF as [Hndk Hpos]. cbn [heap pos] in *. split; cbn [heap pos].
@@ -769,7 +773,7 @@ Proof.
     { cbn [hset]. change (lst :: t' ++ [lst]) with ((lst :: t') ++ [lst]). apply removelast_last. }
     rewrite Hn in Hp. cbn [Nat.eqb] in Hp.
     replace (S (S (length t')) - 1) with (S (length t')) in Hp by lia.
-    rewrite Hgl, Hh1 in Hp. injection Hp as <- <-.
+    rewrite Hgl, Hh1 in Hp. apply some_pair_inj in Hp as [<- <-].
     set (h := first :: t' ++ [lst]) in *.
     set (p1 := pos_erase (pos_set p (snd lst) 0) (snd first)).
     assert (HWF1 : WF (PQ (lst :: t') p1)).
